@@ -21,7 +21,7 @@ ID = "C19"
 LEVEL = "model_checking"
 
 
-def sc_reinsert(V, n=4, k=2, with_fixed=False):
+def sc_reinsert(V, n=4, k=2, with_fixed=False, signs=False):
     from quansino.utils.atoms import reinsert_atoms
 
     atoms = mcsim.make_atoms(V, n, momenta=True, extras=True)
@@ -30,6 +30,9 @@ def sc_reinsert(V, n=4, k=2, with_fixed=False):
     for j in range(k):
         free = [i for i in range(n) if i not in idx]
         idx.append(free[V.choice(f"idx{j}", len(free))])
+    if signs:
+        # each index may be written from the end (i - n): the same atoms, any mixture of the two spellings
+        idx = [i - n if V.choice(f"neg{j}", 2) else i for j, i in enumerate(idx)]
     info = f"reinsert:n={n}:indices={idx}"
     snap = mcsim.snapshot(V, atoms)
     dtypes0 = {name: a.dtype for name, a in atoms.arrays.items()}
@@ -172,12 +175,15 @@ def _plan(tier):
         ("reinsert", dict(n=4, k=2), ("done",)),
         ("reinsert", dict(n=4, k=3), ("done",)),
         ("reinsert_new", dict(n=3), ("done",)),
+        ("reinsert", dict(n=4, k=2, signs=True), ("done",)),
+        ("reinsert", dict(n=3, k=3, signs=True), ("done",)),
     ]
     for size in (("none", "two", "one-two") if q else tuple(SIZES)):
         for d in ("none", "array", "list"):
             P.append(("molecules", dict(n=3 if q else 4, size=size, default=d), ("done",)))
     if not q:
         P.append(("reinsert", dict(n=5, k=3), ("done",)))
+        P.append(("reinsert", dict(n=4, k=3, signs=True), ("done",)))
     P.append(("reinsert", dict(n=4, k=2), (), "restored-exactly"))
     return P
 
@@ -186,7 +192,7 @@ def run(rep: Report):
     tier = rep.tier
     opts = {"prove_timeout_ms": 10000, "fork_timeout_ms": 2000, "seed": rep.seed, "scenario_wall_s": 240 if tier == "quick" else 1200}
     run_plan(rep, _plan(tier), SCENARIOS, opts)
-    rep.bounds = {"atoms": "<=4 (5 in thorough)", "index tuples": "every ordered tuple of k<=3 distinct indices", "adjacency": "every symmetric relation on 3 (quick) / 4 atoms", "size filters": list(SIZES), "defaults": "None, ndarray, list"}
+    rep.bounds = {"atoms": "<=4 (5 in thorough)", "index tuples": "every ordered tuple of k<=3 distinct indices, each written from the front or from the end (negative), any mixture", "adjacency": "every symmetric relation on 3 (quick) / 4 atoms", "size filters": list(SIZES), "defaults": "None, ndarray, list"}
     rep.assumptions = ["array contents symbolic (term identity = bit-for-bit); species and tags are distinct markers", "ase neighbor_list replaced by its contract: it returns exactly the ordered pairs of the adjacency relation"]
     rep.stubs = ["neighbor_list contract stub", "SymAtoms with real ase __getitem__/__delitem__"]
     rep.outside = ["geometry -> adjacency (ase's neighbour list, minimum image)", "float dtypes in symbolic mode (checked on replay only)"]
